@@ -6,6 +6,7 @@ import PyamgV.Proofs.NaiveAgg
 import PyamgV.Proofs.Pairwise
 import PyamgV.Proofs.ExtPairwise
 import PyamgV.Proofs.ExtC12LloydAgg
+import PyamgV.Proofs.ExtC12BalFirst
 
 /-! # C12 — aggregation routines return valid partitions of the strength graph
 
@@ -20,7 +21,14 @@ Lloyd (extension E18): `ExtLloyd.lloydCluster` / `ExtLloyd.lloydAggregation` —
 the exact `bellman_ford` kernel model `N.bellmanFord`, `most_interior_nodes` loop by loop, the
 `while changed and it < maxiter` loop, measure handling and the AggOp assembly — run by the driver
 (`ext_c12_lloyd`, `ext_c12_lloyd_agg`, `ext_c12_most_interior`) and compared exactly with
-`lloyd_cluster`, `lloyd_aggregation` (replayed permutation) and the rebuilt kernel on every run. -/
+`lloyd_cluster`, `lloyd_aggregation` (replayed permutation) and the rebuilt kernel on every run.
+Balanced Lloyd (extension E34): `BalLloyd.cluster` / `BalLloyd.aggregation` — the exact `bellman_ford_balanced`
+model `Bal.kernel`, `center_nodes` loop by loop (counting sort into `C`, local indices `L`, Floyd–Warshall
+per cluster, centre selection, update of `d, p, pc`), the `while (changed1 or changed2) and it < maxiter`
+loop with its `ValueError` checks, `_elimination_penalty`, `_split_improvement`, `_rebalance` (recorded
+`argsort` orders), the rebalance rounds — run by the driver (`ext_c12_ballloyd`, `ext_c12_ballloyd_agg`,
+`ext_c12_center_nodes`) and compared exactly with `balanced_lloyd_cluster`, `balanced_lloyd_aggregation`
+(replayed permutation) and the rebuilt `center_nodes` kernel on every run. -/
 namespace PyamgV.Props.C12
 
 /-- ids are `-1` or `0..k-1`, `k ≤ n-1` (the `-n` sentinel never collides), unaggregated = exactly the
@@ -82,6 +90,62 @@ example : ExtLloyd.accepts lloydP4 #[0, 2] = true := by decide +kernel
 example : ExtLloyd.lloydCluster lloydP4 #[0, 2] 3 = .ok (some (#[0, 0, 1, -1], #[0, 2])) := by decide +kernel
 example : ExtLloyd.lloydAggregation lloydP4 "unit" (1/2) #[3, 1, 0, 2] 3 =
     .ok (some ((#[0, 1, 2, 3, 4], #[1, 1, 1, 0], #[1, 1, 1, 1]), #[3, 1])) := by decide +kernel
+
+/-! ### balanced Lloyd aggregation (E34) -/
+
+/-- `bellman_ford_balanced` keeps the bookkeeping invariant from any state (fresh round or the state
+`center_nodes` leaves): ids `-1..k-1`, exact cluster sizes `s[a] = #{m = a}`, distances `>= 0`, every centre
+at distance 0 inside its own cluster -/
+restate bal_kernel_bookkeeping := PyamgV.BalLloyd.kernel_kinv
+/-- the counting sort of `center_nodes`: with exact sizes, slot `t` of bucket `a` of `C` holds the `t`-th
+node of cluster `a` -/
+restate bal_center_nodes_buckets := PyamgV.BalLloyd.fill_spec
+/-- Floyd–Warshall inside a cluster (non-negative weights, `tol > 0`): all entries stay non-negative or
+`inf`, the diagonal stays 0 -/
+restate bal_floyd_warshall_nonneg := PyamgV.BalLloyd.fwRun_spec
+/-- `center_nodes` leaves cluster ids and sizes untouched, moves a centre only to a node of the same
+cluster and gives the new centre distance 0: the bookkeeping invariant survives -/
+restate bal_center_nodes_spec := PyamgV.BalLloyd.centerNodes_spec
+/-- a `_rebalance` call that reports no change returns the centres unchanged -/
+restate bal_rebalance_unchanged := PyamgV.BalLloyd.rebalance_unchanged
+/-- `balanced_lloyd_cluster` (distinct initial centres, `maxiter >= 1`, weights `>= tol > 0`; any pattern,
+`rebalance_iters`, `tiebreaking`, recorded sort orders): whenever it returns, every node has an id in
+`0..k-1` (every node is assigned) and `clusters[centers[a]] = a` for every returned centre -/
+restate balanced_lloyd_cluster_spec := PyamgV.BalLloyd.cluster_spec
+/-- consequence of `clusters[centers[a]] = a`: the returned centres are distinct (no aggregate is empty) -/
+restate balanced_lloyd_centres_distinct := PyamgV.BalLloyd.BalSpec.centres_distinct
+/-- `balanced_lloyd_aggregation` as a whole (measure, `naggs`, replayed permutation, clustering, AggOp
+assembly): a valid partition and one unit entry `(i, clusters[i])` per node -/
+restate balanced_lloyd_aggregation_spec := PyamgV.BalLloyd.aggregation_spec
+/-- the first Bellman–Ford pass of every rebalance round starts from a state satisfying the invariant of
+`Bal.kernel_spec` (C18): shortest distances, nearest-centre labels, in-cluster predecessor chains w.r.t.
+the centres the round starts from (with `maxiter = 1` these are the returned cluster ids) -/
+restate balanced_lloyd_first_pass := PyamgV.BalLloyd.first_pass_final
+/-- on a graph where every node is reachable from a centre that pass assigns every node (the
+`disconnected` ValueError is not raised) -/
+restate balanced_lloyd_first_pass_assigned := PyamgV.BalLloyd.first_pass_assigned
+
+/-! non-vacuity (balanced Lloyd): the unit-weight path 0–1–2–3–4 with initial centres 0, 1: Lloyd moves the
+second centre to node 2 (first pass) and on to node 3, node 1 changes sides: `{0,1}`, `{2,3,4}` with centres
+0 and 3; the `_rebalance` call (recorded sort orders `[0,1]`, `[0,1]`) finds no profitable split -/
+def balP5 : Bal.Csr := ⟨5, #[0,1,3,5,7,8], #[1,0,2,1,3,2,4,3], #[1,1,1,1,1,1,1,1]⟩
+example : ∀ e ∈ balP5.entries, (1 : Rat) / 100000000000000 ≤ e.2.2 := by decide +kernel
+example : BalLloyd.cluster (1 / 100000000000000) true balP5 #[0, 1] 1 0 [] = .ok (#[0, 1, 1, 1, 1], #[0, 2]) := by
+  decide +kernel
+example : BalLloyd.cluster (1 / 100000000000000) true balP5 #[0, 1] 3 2 [(#[0, 1], #[0, 1])] =
+    .ok (#[0, 0, 1, 1, 1], #[0, 3]) := by
+  decide +kernel
+
+/-! non-vacuity (rebalancing): the unit-weight 4-cycle with centres 1, 2, 3: the first `_rebalance` call
+eliminates one cluster and splits another (the centres change), the second finds nothing to do -/
+def balC4 : Bal.Csr := ⟨4, #[0,2,4,6,8], #[1,3,0,2,1,3,0,2], #[1,1,1,1,1,1,1,1]⟩
+example : BalLloyd.cluster (1 / 100000000000000) true balC4 #[1, 2, 3] 2 2
+    [(#[0, 1, 2], #[1, 2, 0]), (#[0, 1, 2], #[1, 2, 0])] = .ok (#[1, 1, 0, 2], #[2, 1, 3]) := by
+  decide +kernel
+example : BalLloyd.cluster (1 / 100000000000000) true balC4 #[1, 2, 3] 2 0 [] ≠
+    BalLloyd.cluster (1 / 100000000000000) true balC4 #[1, 2, 3] 2 2
+      [(#[0, 1, 2], #[1, 2, 0]), (#[0, 1, 2], #[1, 2, 0])] := by
+  decide +kernel
 
 /-! non-vacuity: the path 0–1–2 with an isolated node 3 -/
 example : (Agg.standardAggregation ⟨4, fun i => [[1],[0,2],[1],[]].getD i []⟩).1 = #[0, 0, 0, -1] := by decide
